@@ -550,7 +550,9 @@ func (m *Manager) PruneBlocks(height uint64) {
 	m.mu.Lock()
 	defer m.mu.Unlock()
 
-	for h := height; h > 0; h-- {
+	// heights above the tip hold no blocks; start at the tip so that a height
+	// beyond it still prunes everything below
+	for h := min(height, m.tipState.Index.Height+1); h > 0; h-- {
 		index, ok := m.store.BestIndex(h - 1)
 		if !ok {
 			break // block does not exist
